@@ -521,12 +521,31 @@ Qed.
 
 Lemma write_msg_ok v m : carriable v m -> write_msg v m = Ok (frame v m).
 Proof.
-  destruct v; cbn [carriable write_msg]; [|reflexivity].
-  intros [H _]. rewrite H. reflexivity.
+  unfold write_msg, write_header, frame, header.
+  destruct v; cbn [carriable].
+  - intros [H4 Hw]. rewrite H4. cbn [N.eqb negb].
+    destruct (N.leb_spec 16777216 (blen m / 4)); [lia|reflexivity].
+  - intros H. destruct (N.leb_spec 4294967296 (blen m)); [lia|reflexivity].
 Qed.
 
 Lemma write_msg_abridged_unaligned m : blen m mod 4 <> 0 -> write_msg Abridged m = Err.
-Proof. intros H. cbn [write_msg]. destruct (N.eqb_spec (blen m mod 4) 0); [contradiction|reflexivity]. Qed.
+Proof.
+  intros H. unfold write_msg, write_header.
+  destruct (N.eqb_spec (blen m mod 4) 0); [contradiction|reflexivity].
+Qed.
+
+(* a message the format cannot carry is refused, nothing is written for it *)
+Lemma write_msg_refuses v m : ~ carriable v m -> write_msg v m = Err.
+Proof.
+  unfold write_msg, write_header. destruct v; cbn [carriable]; intros H.
+  - destruct (N.eqb_spec (blen m mod 4) 0) as [E|E]; cbn [negb]; [|reflexivity].
+    destruct (N.leb_spec 16777216 (blen m / 4)); [reflexivity|]. exfalso. apply H. split; assumption.
+  - destruct (N.leb_spec 4294967296 (blen m)); [reflexivity|contradiction].
+Qed.
+
+Lemma write_header_spec v m :
+  write_msg v m = match write_header v (blen m) with Ok h => Ok (h ++ m) | Err => Err | Panic => Panic end.
+Proof. reflexivity. Qed.
 
 Lemma write_all_ok v msgs : Forall (carriable v) msgs -> write_all v msgs = Ok (concat (map (frame v) msgs)).
 Proof.
